@@ -13,8 +13,16 @@
      body      ::= [lit {"," lit}] | int "{" [wlit {";" wlit}] "}"
      wlit      ::= lit ["=" int]          (weight 1 when absent)
      lit       ::= ["not"] name
-     name      ::= ident [ "(" balanced ")" ]   ident = [a-z_][A-Za-z0-9_]* other than "not"; the argument list
-                   follows the identifier directly, runs to the matching ")", quoted strings inside are opaque      *)
+     name      ::= plain | tatom
+     plain     ::= ident [ "(" balanced ")" ]   ident = [a-z_][A-Za-z0-9_]* other than "not"; the argument list
+                   follows the identifier directly, runs to the matching ")", quoted strings inside are opaque
+     tatom     ::= "&" prim "{" [telem {";" telem}] "}" [op term]
+     telem     ::= term {"," term} [":" plit {"," plit}]  |  ":" plit {"," plit}            plit ::= ["not"] plain
+     term      ::= op prim | prim [op prim]                 (an operator term below an operator term needs brackets)
+     prim      ::= ["-"] digits | sym | sym "(" [term {"," term}] ")" | "(" [term {"," term}] ")" | "{" .. "}" | "[" .. "]"
+     sym       ::= [A-Za-z_][A-Za-z0-9_]*      op ::= one or more of / ! < = > + - * \ ? & @ ~ ^   (longest match;
+                   "-" directly followed by a digit at the start of a term is the sign of a number)
+   A theory atom in front of "." is read as a fact whose head is that theory atom.                                  *)
 Require Import V.Lib.Base V.Lib.Dec.
 Local Open Scope Z_scope.
 
@@ -36,6 +44,18 @@ End Stmt.
 Arguments BNormal {A} l. Arguments BAgg {A} b l.
 Arguments SRule {A}. Arguments SMin {A}. Arguments SProject {A}. Arguments SShow {A}. Arguments SExternal {A}.
 Arguments SAssume {A}. Arguments SHeu {A}. Arguments SEdge {A}.
+
+(* ---------- theory atoms ---------- *)
+Inductive ttree :=
+| TN (n : Z) | TS (s : list Z)
+| TF (f : ttree) (args : list ttree)          (* f(args) *)
+| TT (kind : Z) (args : list ttree)           (* tuple: -1 (..)  -2 {..}  -3 [..] *)
+| TU (op : list Z) (a : ttree)                (* op a *)
+| TB (op : list Z) (a b : ttree).             (* a op b *)
+Definition telemt := (list ttree * list (glit (list Z)))%type.         (* terms : condition (plain literals) *)
+Record tatomt := mkTA { tt_name : ttree; tt_elems : list telemt; tt_guard : option (ttree * ttree) }.
+(* what the parser reads at an atom position: a plain name or a theory atom *)
+Inductive patom := PN (n : list Z) | PT (t : tatomt).
 
 Section Map.
 Context {A B : Type} (f : A -> B).
@@ -126,10 +146,10 @@ Definition p_args : parser (list Z) :=
            | c :: r => if c =? 40 then consr c (scan 1 false false r) else Some ([], l)
            | [] => Some ([], l)
            end.
-Definition p_name : parser (list Z) :=
+Definition p_name0 : parser (list Z) :=
   n <- p_ident ;; if list_eqb n kw_not then (fun _ => None) else (a <- p_args ;; ret (n ++ a)).
-Definition p_lit : parser (glit (list Z)) :=
-  n <- p_ident ;; if list_eqb n kw_not then (m <- p_name ;; ret (true, m)) else (a <- p_args ;; ret (false, n ++ a)).
+Definition p_lit0 : parser (glit (list Z)) :=
+  n <- p_ident ;; if list_eqb n kw_not then (m <- p_name0 ;; ret (true, m)) else (a <- p_args ;; ret (false, n ++ a)).
 
 (* the names the parser reads back: an identifier other than "not", optionally followed by a well-formed argument list *)
 Definition nilb {A} (l : list A) : bool := match l with [] => true | _ => false end.
@@ -153,9 +173,6 @@ Definition p_int : parser Z :=
                        else p_digits (c :: r)
            | [] => None
            end.
-
-Definition p_wlit : parser (glit (list Z) * Z) :=
-  x <- p_lit ;; w <- opt [61] p_int 1 ;; ret (x, w).
 
 (* one or more elements separated by token sep *)
 Fixpoint p_sep1 {A} (fuel : nat) (p : parser A) (sep : list Z) : parser (list A) :=
@@ -186,9 +203,91 @@ Definition t_assume := [35; 97; 115; 115; 117; 109; 101].
 Definition t_heuristic := [35; 104; 101; 117; 114; 105; 115; 116; 105; 99].
 Definition t_edge := [35; 101; 100; 103; 101].
 
-Definition p_cond : parser (list (glit (list Z))) := opt t_colon (p_list1 p_lit t_comma) [].
+(* ---------- theory terms and theory atoms ---------- *)
+Definition sop_chars : list Z := [47; 33; 60; 61; 62; 43; 45; 42; 92; 63; 38; 64; 126; 94].    (* / ! < = > + - * \ ? & @ ~ ^ *)
+Definition is_sop (c : Z) : bool := existsb (Z.eqb c) sop_chars.
+Definition is_sym_start (c : Z) : bool := is_lower c || is_upper c || (c =? 95).
+Definition hd_digit (l : list Z) : bool := match l with c :: _ => is_digit c | [] => false end.
+Definition brackets : list (Z * (Z * Z)) := [(-1, (40, 41)); (-2, (123, 125)); (-3, (91, 93))].
+Fixpoint open_kind (tab : list (Z * (Z * Z))) (c : Z) : option (Z * Z) :=
+  match tab with
+  | [] => None
+  | (k, (o, cl)) :: r => if c =? o then Some (k, cl) else open_kind r c
+  end.
 
-Definition p_body : parser (body (list Z)) :=
+Section TermBody.
+Variable pt : parser ttree.                       (* the parser for terms nested in brackets *)
+(* after the opening bracket: [term {"," term}] close *)
+Definition p_targs (close : Z) : parser (list ttree) :=
+  fun l => match tok [close] l with
+           | Some (_, r) => Some ([], r)
+           | None => (xs <- p_list1 pt t_comma ;; tok [close] ;;; ret xs) l
+           end.
+Definition p_prim : parser ttree :=
+  fun l => match skipws l with
+           | c :: r =>
+               if is_digit c then (n <- p_digits ;; ret (TN n)) (c :: r)
+               else if (c =? 45) && hd_digit r then (n <- p_digits ;; ret (TN (- n))) r
+               else if is_sym_start c then
+                 let '(a, b) := span is_ident_char r in
+                 match b with
+                 | d :: b' => if d =? 40 then (xs <- p_targs 41 ;; ret (TF (TS (c :: a)) xs)) b' else Some (TS (c :: a), b)
+                 | [] => Some (TS (c :: a), b)
+                 end
+               else match open_kind brackets c with
+                    | Some (k, cl) => (xs <- p_targs cl ;; ret (TT k xs)) r
+                    | None => None
+                    end
+           | [] => None
+           end.
+(* an operator in front of what is left, if any *)
+Definition p_op : parser (option (list Z)) :=
+  fun l => match skipws l with
+           | d :: r => if is_sop d then let '(o, r') := span is_sop (d :: r) in Some (Some o, r') else Some (None, l)
+           | [] => Some (None, l)
+           end.
+Definition p_term1 : parser ttree :=
+  fun l => match skipws l with
+           | c :: r =>
+               if is_sop c && negb ((c =? 45) && hd_digit r) then
+                 let '(o, r') := span is_sop (c :: r) in (a <- p_prim ;; ret (TU o a)) r'
+               else (a <- p_prim ;; o <- p_op ;;
+                     match o with Some o' => (b <- p_prim ;; ret (TB o' a b)) | None => ret a end) (c :: r)
+           | [] => None
+           end.
+End TermBody.
+Fixpoint p_term (fuel : nat) : parser ttree :=
+  match fuel with O => fun _ => None | S f => p_term1 (p_term f) end.
+
+Definition p_cond0 : parser (list (glit (list Z))) := p_list1 p_lit0 t_comma.
+Definition p_telem (fuel : nat) : parser telemt :=
+  fun l0 => let l := skipws l0 in
+           match tok t_colon l with
+           | Some (_, r) => (c <- p_cond0 ;; ret ([], c)) r
+           | None => (ts <- p_list1 (p_term fuel) t_comma ;; c <- opt t_colon p_cond0 [] ;; ret (ts, c)) l
+           end.
+Definition p_tatom (fuel : nat) : parser tatomt :=
+  tok [38] ;;; n <- p_prim (p_term fuel) ;; tok t_lbrace ;;; es <- p_list0 (p_telem fuel) t_semi t_rbrace ;; tok t_rbrace ;;;
+  o <- p_op ;; match o with
+               | Some o' => (b <- p_term fuel ;; ret (mkTA n es (Some (TS o', b))))
+               | None => ret (mkTA n es None)
+               end.
+
+(* names and literals at atom positions *)
+Definition starts_amp (l : list Z) : bool := match l with c :: _ => c =? 38 | [] => false end.
+Definition p_name : parser patom :=
+  fun l0 => let l := skipws l0 in
+            if starts_amp l then (t <- p_tatom (S (length l)) ;; ret (PT t)) l else (n <- p_name0 ;; ret (PN n)) l.
+Definition p_lit : parser (glit patom) :=
+  fun l0 => let l := skipws l0 in
+            if starts_amp l then (t <- p_tatom (S (length l)) ;; ret (false, PT t)) l
+            else (n <- p_ident ;; if list_eqb n kw_not then (m <- p_name ;; ret (true, m)) else (a <- p_args ;; ret (false, PN (n ++ a)))) l.
+Definition p_wlit : parser (glit patom * Z) :=
+  x <- p_lit ;; w <- opt [61] p_int 1 ;; ret (x, w).
+
+Definition p_cond : parser (list (glit patom)) := opt t_colon (p_list1 p_lit t_comma) [].
+
+Definition p_body : parser (body patom) :=
   fun l => let l' := skipws l in
            match l' with
            | c :: _ =>
@@ -198,10 +297,10 @@ Definition p_body : parser (body (list Z)) :=
            | [] => None
            end.
 
-Definition p_rule_tail (choice : bool) (head : list (list Z)) : parser (stmt (list Z)) :=
+Definition p_rule_tail (choice : bool) (head : list patom) : parser (stmt patom) :=
   b <- opt t_if p_body (BNormal []) ;; tok t_dot ;;; ret (SRule choice head b).
 
-Definition p_rule : parser (stmt (list Z)) :=
+Definition p_rule : parser (stmt patom) :=
   fun l => match tok t_lbrace l with
            | Some (_, r) => (h <- p_list0 p_name t_semi t_rbrace ;; tok t_rbrace ;;; p_rule_tail true h) r
            | None => match tok t_if l with
@@ -222,7 +321,7 @@ Definition heu_values : list (Z * list Z) :=
   [(0, [108; 101; 118; 101; 108]); (1, [115; 105; 103; 110]); (2, [102; 97; 99; 116; 111; 114]); (3, [105; 110; 105; 116]);
    (4, [116; 114; 117; 101]); (5, [102; 97; 108; 115; 101])].
 
-Definition p_stmt : parser (stmt (list Z)) :=
+Definition p_stmt : parser (stmt patom) :=
   fun l =>
   match tok t_minimize l with
   | Some (_, r) => (tok t_lbrace ;;; e <- p_list0 p_wlit t_semi t_rbrace ;; tok t_rbrace ;;;
@@ -232,7 +331,7 @@ Definition p_stmt : parser (stmt (list Z)) :=
   | Some (_, r) => (tok t_lbrace ;;; e <- p_list0 p_name t_comma t_rbrace ;; tok t_rbrace ;;; tok t_dot ;;; ret (SProject e)) r
   | None =>
   match tok t_show l with
-  | Some (_, r) => (t <- p_name ;; c <- p_cond ;; tok t_dot ;;; ret (SShow t c)) r
+  | Some (_, r) => (t <- p_name0 ;; c <- p_cond ;; tok t_dot ;;; ret (SShow t c)) r
   | None =>
   match tok t_external l with
   | Some (_, r) => (a <- p_name ;; tok t_dot ;;; v <- opt t_lbrack (v <- p_kw ext_values ;; tok t_rbrack ;;; ret v) 2 ;; ret (SExternal a v)) r
@@ -252,7 +351,7 @@ Definition p_stmt : parser (stmt (list Z)) :=
 Fixpoint skip_line (l : list Z) : list Z :=
   match l with c :: r => if c =? 10 then r else skip_line r | [] => [] end.
 
-Fixpoint p_stmts (n : nat) (l : list Z) : option (list (stmt (list Z))) :=
+Fixpoint p_stmts (n : nat) (l : list Z) : option (list (stmt patom)) :=
   match n with
   | O => None
   | S k =>
@@ -267,4 +366,4 @@ Fixpoint p_stmts (n : nat) (l : list Z) : option (list (stmt (list Z))) :=
       end
   end.
 
-Definition ref_parse (l : list Z) : option (list (stmt (list Z))) := p_stmts (S (length l)) l.
+Definition ref_parse (l : list Z) : option (list (stmt patom)) := p_stmts (S (length l)) l.
